@@ -58,44 +58,47 @@ theorem eraseCol_len (i : Nat) (rows : List Row) : (eraseCol i rows).length = ro
 
 /-- `(*Writer).receive` never indexes out of range (given the parallel slices `readers`/`links`
 have equal length), keeps the head row incomplete, and emits exactly the rows it removes. -/
-theorem receive_facts (m : W) (a : Ans) (r : RId) (g : Nat)
+theorem receive_facts (m : W) (a : Ans) (r : RId) (g w : Nat)
     (hh : ∀ row rest, m.rows = row :: rest → hasNil row = true) :
-    (m.links.length = m.readers.length → ∀ k, (receive m a r g).2.ret ≠ .panic k) ∧
-    (∀ row rest, (receive m a r g).1.rows = row :: rest → hasNil row = true) ∧
-    (receive m a r g).2.emits.length + (receive m a r g).1.rows.length = m.rows.length ∧
-    (receive m a r g).2.deliv = [] ∧
-    (receive m a r g).1.readers = m.readers ∧ (receive m a r g).1.links = m.links := by
+    (m.links.length = m.readers.length → m.writes.length = m.rows.length →
+      (∀ k, (receive m a r g w).2.ret ≠ .panic k) ∧ (receive m a r g w).1.writes.length = (receive m a r g w).1.rows.length) ∧
+    (∀ row rest, (receive m a r g w).1.rows = row :: rest → hasNil row = true) ∧
+    (receive m a r g w).2.emits.length + (receive m a r g w).1.rows.length = m.rows.length ∧
+    (receive m a r g w).2.deliv = [] ∧
+    (receive m a r g w).1.readers = m.readers ∧ (receive m a r g w).1.links = m.links := by
   simp only [receive, receiveWith]
   split
-  · exact ⟨by simp, hh, by simp, rfl, rfl, rfl⟩
+  · exact ⟨fun _ hw => ⟨by simp, hw⟩, hh, by simp, rfl, rfl, rfl⟩
   split
-  · exact ⟨by simp, hh, by simp, rfl, rfl, rfl⟩
+  · exact ⟨fun _ hw => ⟨by simp, hw⟩, hh, by simp, rfl, rfl, rfl⟩
   rename_i index hidx
   split
   · rename_i hnone
     refine ⟨?_, hh, by simp, rfl, rfl, rfl⟩
-    intro hl
+    intro hl _
     have := indexOf_lt hidx
     rw [← hl] at this
     rw [List.getElem?_eq_getElem this] at hnone
     cases hnone
   split
-  · exact ⟨by simp, hh, by simp, rfl, rfl, rfl⟩
-  cases hih : indexOfHead index m.rows with
-  | panic => exact absurd hih (indexOfHead_ne_panic _ _)
-  | notFound => exact ⟨by simp, hh, by simp, rfl, rfl, rfl⟩
+  · exact ⟨fun _ hw => ⟨by simp, hw⟩, hh, by simp, rfl, rfl, rfl⟩
+  simp only [if_true]
+  cases hih : indexOfWrite index w m.writes m.rows with
+  | panic => exact ⟨fun _ hw => absurd hih (indexOfWrite_ne_panic _ _ _ _ hw), hh, by simp, rfl, rfl, rfl⟩
+  | notFound => exact ⟨fun _ hw => ⟨by simp, hw⟩, hh, by simp, rfl, rfl, rfl⟩
   | found head =>
-    obtain ⟨rows', hset, _, hne0⟩ := indexOfHead_found a hih
+    obtain ⟨rows', hset, _, hne0⟩ := indexOfWrite_found (some a) hih
     have hlen := setCell_len hset
     simp only [hset]
     split
-    · refine ⟨by simp, mflush_head _, ?_, rfl, rfl, rfl⟩
-      have := mflush_len rows'
-      simp only at this ⊢
-      omega
+    · have hfl := mflush_len rows'
+      refine ⟨fun _ hw => ⟨by simp, ?_⟩, mflush_head _, ?_, rfl, rfl, rfl⟩
+      · simp only [List.length_drop]; omega
+      · simp only at hfl ⊢
+        omega
     · rename_i h0
-      obtain ⟨row, rest, rest', e1, _, e2⟩ := hne0 h0
-      refine ⟨by simp, ?_, by simp [hlen], rfl, rfl, rfl⟩
+      obtain ⟨row, rest, rest', e1, e2⟩ := hne0 h0
+      refine ⟨fun _ hw => ⟨by simp, by simp only; omega⟩, ?_, by simp [hlen], rfl, rfl, rfl⟩
       intro row' rest'' he
       simp only [e2, List.cons.injEq] at he
       rw [← he.1]
@@ -129,14 +132,26 @@ theorem newRow_hasNil {closed : RId → Bool} {l : List RId} (h : (accepting clo
   simp only [hasNil, newRow, List.any_map, List.any_eq_true]
   exact ⟨a, ha'.1, by simp [ha'.2]⟩
 
-/-- `readers` and `links` are parallel. -/
-def LinksOK (m : W) : Prop := m.links.length = m.readers.length
+/-- The parallel slices have equal length: `readers`/`links` and `receives`/`writes`. -/
+def LinksOK (m : W) : Prop := m.links.length = m.readers.length ∧ m.writes.length = m.rows.length
 
 theorem step_facts (m : W) (st : Step) (hh : HeadOpen m) :
     (LinksOK m → (∀ k, (Writer.step m st).2.ret ≠ .panic k) ∧ LinksOK (Writer.step m st).1) ∧
     HeadOpen (Writer.step m st).1 ∧
     (Writer.step m st).2.emits.length + (Writer.step m st).1.rows.length =
       m.rows.length + (if isAccepted st (Writer.step m st).2 then 1 else 0) := by
+  have viaReceive : ∀ (m1 : W) (a : Ans) (r : RId) (g w : Nat), m1.rows = m.rows → m1.readers = m.readers →
+      m1.links = m.links → m1.writes = m.writes → ∀ st', isAccepted st' (receive m1 a r g w).2 = false →
+      (LinksOK m → (∀ k, (receive m1 a r g w).2.ret ≠ .panic k) ∧ LinksOK (receive m1 a r g w).1) ∧
+      HeadOpen (receive m1 a r g w).1 ∧
+      (receive m1 a r g w).2.emits.length + (receive m1 a r g w).1.rows.length =
+        m.rows.length + (if isAccepted st' (receive m1 a r g w).2 then 1 else 0) := by
+    intro m1 a r g w h1 h2 h3 h4 st' hacc
+    have := receive_facts m1 a r g w (by rw [h1]; exact hh)
+    refine ⟨fun hl => ?_, this.2.1, by rw [hacc, ← h1]; simpa using this.2.2.1⟩
+    obtain ⟨q1, q2⟩ := this.1 (by rw [h3, h2]; exact hl.1) (by rw [h4, h1]; exact hl.2)
+    refine ⟨q1, ?_, q2⟩
+    rw [this.2.2.2.2.2, this.2.2.2.2.1, h3, h2]; exact hl.1
   cases st with
   | link r =>
     simp only [Writer.step, stepWith]
@@ -158,13 +173,16 @@ theorem step_facts (m : W) (st : Step) (hh : HeadOpen m) :
           have := indexOf_lt hidx
           simp only [LinksOK] at hl
           omega
-        · refine ⟨fun hl => ⟨by simp, ?_⟩, mflush_head _, ?_⟩
+        · have hfl := mflush_len (eraseCol i m.rows)
+          rw [eraseCol_len] at hfl
+          refine ⟨fun hl => ⟨by simp, ?_⟩, mflush_head _, ?_⟩
           · simp only [LinksOK] at hl ⊢
-            show (m.links.eraseIdx i).length = (m.readers.eraseIdx i).length
-            rw [List.length_eraseIdx, List.length_eraseIdx, hl]
-          · have := mflush_len (eraseCol i m.rows)
-            rw [eraseCol_len] at this
-            simpa [isAccepted] using this
+            constructor
+            · show (m.links.eraseIdx i).length = (m.readers.eraseIdx i).length
+              rw [List.length_eraseIdx, List.length_eraseIdx, hl.1]
+            · show (m.writes.drop (Writer.flush (eraseCol i m.rows)).2.length).length = (Writer.flush (eraseCol i m.rows)).1.length
+              rw [List.length_drop]; omega
+          · simpa [isAccepted] using hfl
   | write v =>
     simp only [Writer.step, stepWith]
     split
@@ -178,7 +196,7 @@ theorem step_facts (m : W) (st : Step) (hh : HeadOpen m) :
           omega
         · split
           · rename_i hacc
-            refine ⟨fun hl => ⟨by simp, hl⟩, ?_, ?_⟩
+            refine ⟨fun hl => ⟨by simp, by simpa [LinksOK] using hl⟩, ?_, ?_⟩
             · intro row rest he
               cases hs : m.rows with
               | nil =>
@@ -196,13 +214,20 @@ theorem step_facts (m : W) (st : Step) (hh : HeadOpen m) :
     split
     · exact ⟨fun hl => ⟨by simp, hl⟩, hh, by simp [isAccepted]⟩
     · rename_i g rest _
-      have := receive_facts { m with pend := fun x => if x = r then rest else m.pend x } a r g hh
-      refine ⟨fun hl => ⟨this.1 hl, ?_⟩, this.2.1, by simpa [isAccepted] using this.2.2.1⟩
-      simp only [LinksOK] at hl ⊢
-      have e1 := this.2.2.2.2.1
-      have e2 := this.2.2.2.2.2
-      simp only [receive] at e1 e2
-      rw [e1, e2]; exact hl
+      exact viaReceive { m with pend := fun x => if x = r then rest else m.pend x } a r g.1 g.2 rfl rfl rfl rfl
+        (.answer r a) rfl
+  | pop r a =>
+    simp only [Writer.step, stepWith]
+    split
+    · exact ⟨fun hl => ⟨by simp, hl⟩, hh, by simp [isAccepted]⟩
+    · exact ⟨fun hl => ⟨by simp, hl⟩, hh, by simp [isAccepted]⟩
+  | deliver r k =>
+    simp only [Writer.step, stepWith]
+    split
+    · exact ⟨fun hl => ⟨by simp, hl⟩, hh, by simp [isAccepted]⟩
+    · rename_i e _
+      exact viaReceive { m with flight := fun x => if x = r then (m.flight r).eraseIdx k else m.flight x } e.1 r e.2.1 e.2.2
+        rfl rfl rfl rfl (.deliver r k) rfl
   | closeR r =>
     simp only [Writer.step, stepWith]
     split
@@ -213,19 +238,14 @@ theorem step_facts (m : W) (st : Step) (hh : HeadOpen m) :
     split
     · exact ⟨fun hl => ⟨by simp, hl⟩, hh, by simp [isAccepted]⟩
     · rename_i g rest _
-      have := receive_facts { m with drops := fun x => if x = r then rest else m.drops x } Ans.dropped r g hh
-      refine ⟨fun hl => ⟨?_, ?_⟩, this.2.1, by simpa [isAccepted] using this.2.2.1⟩
-      · intro k
-        have h1 := this.1 hl
-        simp only [receive] at h1
-        generalize (receiveWith true { m with drops := fun x => if x = r then rest else m.drops x } Ans.dropped r g).2.ret = rr at h1 ⊢
-        cases rr <;> simp_all
-      · simp only [LinksOK] at hl ⊢
-        have e1 := this.2.2.2.2.1
-        have e2 := this.2.2.2.2.2
-        simp only [receive] at e1 e2
-        show (receiveWith true _ Ans.dropped r g).1.links.length = (receiveWith true _ Ans.dropped r g).1.readers.length
-        rw [e1, e2]; exact hl
+      have := viaReceive { m with drops := fun x => if x = r then rest else m.drops x } Ans.dropped r g.1 g.2 rfl rfl rfl rfl
+        (.deliverDrop r) rfl
+      refine ⟨fun hl => ⟨?_, (this.1 hl).2⟩, this.2.1, by simpa [isAccepted] using this.2.2⟩
+      intro k
+      have h1 := (this.1 hl).1
+      simp only [receive] at h1
+      generalize (receiveWith true { m with drops := fun x => if x = r then rest else m.drops x } Ans.dropped r g.1 g.2).2.ret = rr at h1 ⊢
+      cases rr <;> simp_all
   | closeW =>
     simp only [Writer.step, stepWith]
     split
@@ -347,6 +367,18 @@ theorem spec_step_ids (s : S) (st : Step) (hI : IdsOK s) :
       · rename_i w rest _
         have := arrive_ids { s with owed := fun x => if x = r then rest else s.owed x } w r a hI
         exact ⟨this.1, this.2.1, by simpa [isAccepted] using this.2.2⟩
+  | pop r a =>
+    simp only [WriterSpec.step]
+    split
+    · exact ⟨hI, by simp, by simp [isAccepted]⟩
+    · split <;> exact ⟨hI, by simp, by simp [isAccepted]⟩
+  | deliver r k =>
+    simp only [WriterSpec.step]
+    split
+    · exact ⟨hI, by simp, by simp [isAccepted]⟩
+    · rename_i e _
+      have := arrive_ids { s with flight := fun x => if x = r then (s.flight r).eraseIdx k else s.flight x } e.2 r e.1 hI
+      exact ⟨this.1, this.2.1, by simpa [isAccepted] using this.2.2⟩
   | closeR r =>
     simp only [WriterSpec.step]
     split <;> exact ⟨hI, by simp, by simp [isAccepted]⟩
@@ -438,7 +470,10 @@ def C01.refines_full : Prop := ∀ h : List Step, (Writer.run h).2 = (WriterSpec
 
 /-- Refinement of the id-keyed specification, for every history – unlink and re-link with
 requests outstanding included (the link generations make a late answer to a request of a removed
-link a no-op, exactly as the specification ignores an answer whose slot is gone). -/
+link a no-op, exactly as the specification ignores an answer whose slot is gone), and with the
+window inside `Reader.Receive` open: answers in flight (`pop`) reach the writer (`deliver`) in any
+order relative to each other, to the drop notices of a `Reader.Close` and to every other step, and
+each is credited to the write it answers (writes are numbered). -/
 theorem C01.refines : C01.refines_full := fun h => (sim_run rel_init h).1
 
 /-- The history that used to be the witness of the known finding `relink-with-pending`: the late
@@ -460,13 +495,36 @@ theorem C01.pinned_relink_miscredit :
   revert this
   decide
 
+/-- The window inside `Reader.Receive` (pop under `r.mu`, unlock, then `(*Writer).receive`): the
+reader is closed in the gap and the drop notice of its second request reaches the writer before
+the answer to the first.  The answer still goes to the first write and the notice to the second. -/
+theorem C01.refines_race_witness :
+    (Writer.run [.link 0, .write 1, .write 2, .pop 0 (.val 1), .closeR 0, .deliverDrop 0, .deliver 0 0]).2.map
+        (fun o => (o.ret, o.emits)) =
+      [(.ok true, []), (.cnt 1, []), (.cnt 1, []), (.ok true, []), (.cnt 1, []), (.unit, []),
+       (.ok true, [.val 1, .err [0]])] := by decide
+
+/-- The defect the numbering of writes repairs, kept machine-checked on the code as it was before
+(`stepPinned`: a response goes to the oldest row still owing the reader): in the same schedule
+the drop notice fills the row of write 1 and the answer to write 1 becomes the response to write 2. -/
+theorem C01.pinned_race_miscredit :
+    (Writer.runFromPinned W.init
+        [.link 0, .write 1, .write 2, .pop 0 (.val 1), .closeR 0, .deliverDrop 0, .deliver 0 0]).2.map (·.emits) =
+      [[], [], [], [], [], [.err [0]], [.val 1]] ∧
+    ¬ ∀ h : List Step, (Writer.runFromPinned W.init h).2 = (WriterSpec.run h).2 := by
+  refine ⟨by decide, ?_⟩
+  intro hf
+  have := hf [.link 0, .write 1, .write 2, .pop 0 (.val 1), .closeR 0, .deliverDrop 0, .deliver 0 0]
+  revert this
+  decide
+
 /-- A response carrying a generation other than the reader's current link generation (a request
 of a link that `Unlink` removed, or of a reader that is not linked) changes nothing and emits
 nothing, in every state: where such a response – in particular a stale drop notice – is placed
 in a schedule cannot be observed. -/
-theorem C01.stale_response_ignored (m : W) (a : Ans) (r : RId) (g : Nat)
+theorem C01.stale_response_ignored (m : W) (a : Ans) (r : RId) (g w : Nat)
     (hl : m.links.length = m.readers.length) (hs : linkOf m r ≠ some g) :
-    receive m a r g = (m, { ret := .ok false }) := by
+    receive m a r g w = (m, { ret := .ok false }) := by
   simp only [receive, receiveWith]
   split
   · rfl
@@ -515,43 +573,31 @@ theorem C01.in_order (h : List Step) :
   rw [C01.refines h]
   exact ⟨rfl, (C01.spec_in_order h).2.2.2⟩
 
-namespace Uniflow.WriterProofs
-
-theorem fifoOK_count {cur : Option Nat} {gs ws ob : List Nat} (h : FifoOK cur gs ws ob) :
-    (gs.filter fun g => some g == cur).length = ob.length := by
-  induction gs generalizing ws ob with
-  | nil => cases ws <;> simp_all [FifoOK]
-  | cons g gs ih =>
-    cases ws with
-    | nil => simp [FifoOK] at h
-    | cons w ws =>
-      simp only [FifoOK] at h
-      split at h
-      · rename_i hc
-        obtain ⟨ob', e, h'⟩ := h
-        have hb : (some g == cur) = true := by simpa using hc
-        simp only [List.filter_cons, hb, if_true, List.length_cons, e, ih h']
-      · rename_i hc
-        have hb : (some g == cur) = false := by simpa using hc
-        simp only [List.filter_cons, hb, Bool.false_eq_true, if_false]
-        exact ih h.2
-
-end Uniflow.WriterProofs
-
-/-- Every answer a pending row still waits for is backed, after every history: the model's rows
-are the specification's rows read column-wise, and for every reader the rows that still owe it an
-answer are as many as the entries of its queue – unanswered requests while it is open, drop
-notices in flight once it is closed – that carry its current link generation, i.e. that
-`receive` will accept and credit to those rows, oldest first. -/
+/-- Every answer a pending row still waits for is on its way, after every history: the model's
+rows are the specification's rows read column-wise (and its write numbers their write ids), and
+every write whose row still owes reader `r` an answer has a request in r's queue (a drop notice
+once r is closed) or an answer in flight that carries its number. -/
 theorem C01.pending_backed (h : List Step) :
     (Writer.run h).1.rows = (WriterSpec.run h).1.rows.map SRow.cells ∧
+    (Writer.run h).1.writes = (WriterSpec.run h).1.rows.map (·.wid) ∧
     (Writer.run h).1.readers = (WriterSpec.run h).1.linked ∧
-    ∀ r, (owedBy (WriterSpec.run h).1.rows r).length =
-      ((if (Writer.run h).1.closed r then (Writer.run h).1.drops r else (Writer.run h).1.pend r).filter
-        fun g => some g == linkOf (Writer.run h).1 r).length := by
+    ∀ r, ∀ w ∈ owedBy (WriterSpec.run h).1.rows r,
+      (∃ l, (l, w) ∈ (if (Writer.run h).1.closed r then (Writer.run h).1.drops r else (Writer.run h).1.pend r)) ∨
+      (∃ a l, (a, l, w) ∈ (Writer.run h).1.flight r) := by
   have hR := (sim_run rel_init h).2
-  refine ⟨hR.rows, hR.readers, fun r => ?_⟩
-  exact (fifoOK_count (hR.fifo r)).symm
+  refine ⟨hR.rows, hR.writes, hR.readers, fun r w hw => ?_⟩
+  rcases hR.inv.backed r w hw with h1 | ⟨a, h1⟩
+  · left
+    have hq := hR.queue r
+    rw [← hq] at h1
+    obtain ⟨e, he, rfl⟩ := List.mem_map.1 h1
+    exact ⟨e.1, he⟩
+  · right
+    have hf := hR.flight r
+    rw [← hf] at h1
+    obtain ⟨e, he, hee⟩ := List.mem_map.1 h1
+    injection hee with h2 h3
+    exact ⟨e.1, e.2.1, by rw [← h3]; exact he⟩
 
 /-! ### `Join` as the statement describes it -/
 
